@@ -18,6 +18,7 @@ import (
 	"github.com/mattn/anko/env"
 	"github.com/mattn/anko/parser"
 	"github.com/mattn/anko/vhook"
+	"github.com/mattn/anko/vm"
 	"verif/engine/common"
 	"verif/engine/explore"
 	"verif/engine/lib/stepctx"
@@ -28,26 +29,27 @@ import (
 const spinN = 22 // iterations of a "non-terminating" core; far beyond the cancellation window
 
 type core struct {
-	Name    string
-	Src     string // statements
-	Blocked bool
+	Name     string
+	Src      string // statements
+	Blocked  bool
+	MaxDepth int // 0: every nesting depth; n: only under at most n wrappers
 }
 
 var cores = []core{
-	{"loop-nocond", "var n = 0\nfor { n = n + 1; if n > %N { break }; s(1) }", false},
-	{"loop-cond", "var n = 0\nfor n < %N { n = n + 1; s(1) }", false},
-	{"loop-cstyle", "for i = 0; i < %N; i++ { s(1) }", false},
-	{"loop-slice", "for x in long { s(1) }", false},
-	{"loop-map", "for k, v in longmap { s(1) }", false},
-	{"recursion", "func rec(i) { if i > %N { return 0 }; s(1); return rec(i + 1) }\nrec(0)", false},
-	{"func-body-loops", "func spin() { for i = 0; i < %N; i++ { s(1) } }\nspin()", false},
-	{"blocked-recv", "<-never", true},
-	{"blocked-send", "never <- 1", true},
-	{"blocked-range", "for x in never { s(1) }", true},
-	{"blocked-recv2", "v, ok = <-never", true},
+	{"loop-nocond", "var n = 0\nfor { n = n + 1; if n > %N { break }; s(1) }", false, 0},
+	{"loop-cond", "var n = 0\nfor n < %N { n = n + 1; s(1) }", false, 0},
+	{"loop-cstyle", "for i = 0; i < %N; i++ { s(1) }", false, 0},
+	{"loop-slice", "for x in long { s(1) }", false, 0},
+	{"loop-map", "for k, v in longmap { s(1) }", false, 0},
+	{"recursion", "func rec(i) { if i > %N { return 0 }; s(1); return rec(i + 1) }\nrec(0)", false, 0},
+	{"func-body-loops", "func spin() { for i = 0; i < %N; i++ { s(1) } }\nspin()", false, 0},
+	{"blocked-recv", "<-never", true, 0},
+	{"blocked-send", "never <- 1", true, 0},
+	{"blocked-range", "for x in never { s(1) }", true, 0},
+	{"blocked-recv2", "v, ok = <-never", true, 0},
 	// forwarding form dst <- src: the receive half succeeds, the send half can never complete
-	{"blocked-forward", "rdy = make(chan int64, 1)\nrdy <- 1\nnever <- rdy", true},
-	{"blocked-forward2", "rdy = make(chan int64, 1)\nrdy <- 1\nnever <- <-rdy", true},
+	{"blocked-forward", "rdy = make(chan int64, 1)\nrdy <- 1\nnever <- rdy", true, 0},
+	{"blocked-forward2", "rdy = make(chan int64, 1)\nrdy <- 1\nnever <- <-rdy", true, 0},
 }
 
 type wrapper struct {
@@ -55,53 +57,89 @@ type wrapper struct {
 	// Wrap embeds body (statements) and returns statements.
 	Wrap func(body string, id int) string
 	Go   bool
+	// Lib: the body goes into a function that an EARLIER run on the same
+	// environment defines (the prelude); what stays in the program is the call.
+	Lib func(body string, id int) (prelude, call string)
+	// Solo wrappers are explored alone and in depth-2 pairs with soloMates only.
+	Solo bool
 }
 
 func indent(s string) string { return strings.ReplaceAll(s, "\n", "\n\t") }
 
 var wrappers = []wrapper{
-	{"if", func(b string, id int) string { return "if true {\n\t" + indent(b) + "\n}" }, false},
-	{"else", func(b string, id int) string { return "if false {\n\ts(90)\n} else {\n\t" + indent(b) + "\n}" }, false},
-	{"elseif", func(b string, id int) string { return "if false {\n\ts(90)\n} else if true {\n\t" + indent(b) + "\n}" }, false},
-	{"switch-case", func(b string, id int) string { return "switch 1 {\ncase 1:\n\t" + indent(b) + "\n}" }, false},
-	{"switch-default", func(b string, id int) string { return "switch 1 {\ncase 2:\n\ts(90)\ndefault:\n\t" + indent(b) + "\n}" }, false},
-	{"loop", func(b string, id int) string { return "for {\n\t" + indent(b) + "\n\tbreak\n}" }, false},
+	{"if", func(b string, id int) string { return "if true {\n\t" + indent(b) + "\n}" }, false, nil, false},
+	{"else", func(b string, id int) string { return "if false {\n\ts(90)\n} else {\n\t" + indent(b) + "\n}" }, false, nil, false},
+	{"elseif", func(b string, id int) string { return "if false {\n\ts(90)\n} else if true {\n\t" + indent(b) + "\n}" }, false, nil, false},
+	{"switch-case", func(b string, id int) string { return "switch 1 {\ncase 1:\n\t" + indent(b) + "\n}" }, false, nil, false},
+	{"switch-default", func(b string, id int) string { return "switch 1 {\ncase 2:\n\ts(90)\ndefault:\n\t" + indent(b) + "\n}" }, false, nil, false},
+	{"loop", func(b string, id int) string { return "for {\n\t" + indent(b) + "\n\tbreak\n}" }, false, nil, false},
 	{"cfor", func(b string, id int) string {
 		return fmt.Sprintf("for w%d = 0; w%d < 1; w%d++ {\n\t", id, id, id) + indent(b) + "\n}"
-	}, false},
-	{"forin", func(b string, id int) string { return fmt.Sprintf("for w%d in [1] {\n\t", id) + indent(b) + "\n}" }, false},
-	{"try-body", func(b string, id int) string { return "try {\n\t" + indent(b) + "\n} catch {\n\ts(91)\n}" }, false},
-	{"try-body-empty-catch", func(b string, id int) string { return "try {\n\t" + indent(b) + "\n} catch {\n}" }, false},
-	{"catch-body", func(b string, id int) string { return "try {\n\tthrow 1\n} catch {\n\t" + indent(b) + "\n}" }, false},
+	}, false, nil, false},
+	{"forin", func(b string, id int) string { return fmt.Sprintf("for w%d in [1] {\n\t", id) + indent(b) + "\n}" }, false, nil, false},
+	{"try-body", func(b string, id int) string { return "try {\n\t" + indent(b) + "\n} catch {\n\ts(91)\n}" }, false, nil, false},
+	{"try-body-empty-catch", func(b string, id int) string { return "try {\n\t" + indent(b) + "\n} catch {\n}" }, false, nil, false},
+	{"catch-body", func(b string, id int) string { return "try {\n\tthrow 1\n} catch {\n\t" + indent(b) + "\n}" }, false, nil, false},
 	{"finally-body", func(b string, id int) string {
 		return "try {\n\ts(92)\n} catch {\n\ts(91)\n} finally {\n\t" + indent(b) + "\n}"
-	}, false},
-	{"coalesce-left", func(b string, id int) string { return "(func() {\n\t" + indent(b) + "\n}()) ?? 0" }, false},
-	{"coalesce-right", func(b string, id int) string { return "nil ?? (func() {\n\t" + indent(b) + "\n}())" }, false},
+	}, false, nil, false},
+	{"coalesce-left", func(b string, id int) string { return "(func() {\n\t" + indent(b) + "\n}()) ?? 0" }, false, nil, false},
+	{"coalesce-right", func(b string, id int) string { return "nil ?? (func() {\n\t" + indent(b) + "\n}())" }, false, nil, false},
 	{"func0", func(b string, id int) string {
 		return fmt.Sprintf("func f%d() {\n\t", id) + indent(b) + fmt.Sprintf("\n}\nf%d()", id)
-	}, false},
+	}, false, nil, false},
 	{"func1", func(b string, id int) string {
 		return fmt.Sprintf("func f%d(a) {\n\t", id) + indent(b) + fmt.Sprintf("\n}\nf%d(1)", id)
-	}, false},
+	}, false, nil, false},
 	{"func4", func(b string, id int) string {
 		return fmt.Sprintf("func f%d(a, b, c, d) {\n\t", id) + indent(b) + fmt.Sprintf("\n}\nf%d(1, 2, 3, 4)", id)
-	}, false},
+	}, false, nil, false},
 	{"func5", func(b string, id int) string {
 		return fmt.Sprintf("func f%d(a, b, c, d, e) {\n\t", id) + indent(b) + fmt.Sprintf("\n}\nf%d(1, 2, 3, 4, 5)", id)
-	}, false},
+	}, false, nil, false},
 	{"func-variadic", func(b string, id int) string {
 		return fmt.Sprintf("func f%d(a, b...) {\n\t", id) + indent(b) + fmt.Sprintf("\n}\nf%d(1, 2, 3)", id)
-	}, false},
-	{"anon-call", func(b string, id int) string { return "func() {\n\t" + indent(b) + "\n}()" }, false},
+	}, false, nil, false},
+	{"anon-call", func(b string, id int) string { return "func() {\n\t" + indent(b) + "\n}()" }, false, nil, false},
 	{"deferred", func(b string, id int) string {
 		return fmt.Sprintf("func g%d() {\n\tdefer func() {\n\t\t", id) + indent(indent(b)) + fmt.Sprintf("\n\t}()\n\ts(93)\n}\ng%d()", id)
-	}, false},
+	}, false, nil, false},
 	{"go", func(b string, id int) string {
 		return fmt.Sprintf("d%d = make(chan int64)\ngo func() {\n\t", id) + indent(b) + fmt.Sprintf("\n\td%d <- 1\n}()\n<-d%d", id, id)
-	}, true},
-	{"callback", func(b string, id int) string { return "hostcall(func() {\n\t" + indent(b) + "\n})" }, false},
+	}, true, nil, false},
+	{"callback", func(b string, id int) string { return "hostcall(func() {\n\t" + indent(b) + "\n})" }, false, nil, false},
+	{"func2", func(b string, id int) string {
+		return fmt.Sprintf("func f%d(a, b) {\n\t", id) + indent(b) + fmt.Sprintf("\n}\nf%d(1, 2)", id)
+	}, false, nil, true},
+	{"func3", func(b string, id int) string {
+		return fmt.Sprintf("func f%d(a, b, c) {\n\t", id) + indent(b) + fmt.Sprintf("\n}\nf%d(1, 2, 3)", id)
+	}, false, nil, true},
+	// a host function deferred FIRST (so it runs last, after the deferred script
+	// function in which the cancellation lands); h2 is not a probe: deferred calls
+	// do run on every exit
+	{"deferred-before-host", func(b string, id int) string {
+		return fmt.Sprintf("func g%d() {\n\tdefer h2(1, 2)\n\tdefer func() {\n\t\t", id) + indent(indent(b)) + fmt.Sprintf("\n\t}()\n\ts(93)\n}\ng%d()", id)
+	}, false, nil, true},
+	libWrapper("lib0", "", ""),
+	libWrapper("lib1", "a", "1"),
+	libWrapper("lib2", "a, b", "1, 2"),
+	libWrapper("lib3", "a, b, c", "1, 2, 3"),
+	libWrapper("lib4", "a, b, c, d", "1, 2, 3, 4"),
+	libWrapper("lib5", "a, b, c, d, e", "1, 2, 3, 4, 5"),
+	libWrapper("lib-variadic", "a, b...", "1, 2, 3"),
 }
+
+// libWrapper: a script function of the given parameter list, defined by an
+// earlier run on the same environment (under a context that is never cancelled)
+// and called from the run that is cancelled.
+func libWrapper(name, params, args string) wrapper {
+	return wrapper{Name: name, Solo: true, Lib: func(b string, id int) (string, string) {
+		return fmt.Sprintf("func %s_%d(%s) {\n\t", strings.ReplaceAll(name, "-", "_"), id, params) + indent(b) + "\n}",
+			fmt.Sprintf("%s_%d(%s)", strings.ReplaceAll(name, "-", "_"), id, args)
+	}}
+}
+
+var soloMates = map[string]bool{"loop": true, "try-body": true, "func1": true, "go": true, "deferred": true}
 
 var depth3Rep = map[string]bool{"if": true, "loop": true, "try-body": true, "catch-body": true, "coalesce-left": true, "func1": true, "deferred": true, "go": true, "callback": true}
 
@@ -120,6 +158,7 @@ type program struct {
 	Depth int    `json:"depth"`
 	Go    bool   `json:"go"`
 	Bound int    `json:"bound"`
+	Pre   string `json:"pre,omitempty"` // run first, on the same environment, under a context that is never cancelled
 }
 
 func programs(thorough bool) []program {
@@ -132,12 +171,22 @@ func programs(thorough bool) []program {
 	rec = func(path []int) {
 		for _, tail := range []bool{false, true} {
 			for _, c := range cores {
+				if c.MaxDepth > 0 && len(path) > c.MaxDepth {
+					continue
+				}
 				body := strings.ReplaceAll(c.Src, "%N", fmt.Sprint(spinN))
 				names := []string{}
 				hasGo := false
+				pre := ""
 				for i := len(path) - 1; i >= 0; i-- {
 					w := wrappers[path[i]]
-					body = w.Wrap(body, i)
+					if w.Lib != nil {
+						var def string
+						def, body = w.Lib(body, i)
+						pre += def + "\n"
+					} else {
+						body = w.Wrap(body, i)
+					}
 					if w.Go {
 						hasGo = true
 					}
@@ -168,13 +217,23 @@ func programs(thorough bool) []program {
 				if tail {
 					name += ">END"
 				}
-				res = append(res, program{Name: name, Src: src, Depth: len(path), Go: hasGo, Bound: bound})
+				res = append(res, program{Name: name, Src: src, Depth: len(path), Go: hasGo, Bound: bound, Pre: pre})
 			}
 		}
 		if len(path) == maxDepth {
 			return
 		}
 		for wi := range wrappers {
+			solo := wrappers[wi].Solo
+			for _, pi := range path {
+				solo = solo || wrappers[pi].Solo
+			}
+			if solo {
+				// a solo wrapper: alone, or paired (either way round) with a mate
+				if len(path) > 1 || (len(path) == 1 && !soloMates[wrappers[wi].Name] && !soloMates[wrappers[path[0]].Name]) {
+					continue
+				}
+			}
 			if len(path) == 2 && !(depth3Rep[wrappers[wi].Name] && allRep(path)) {
 				// depth 3 is explored over one representative per wrapper family at
 				// every level; depth <= 2 over all wrappers
@@ -223,6 +282,8 @@ func newEnv(logf func(i int64)) *env.Env {
 	e.Define("longmap", lm)
 	e.Define("never", make(chan int64))
 	e.Define("hostcall", func(cb func() interface{}) interface{} { return cb() })
+	e.Define("h2", func(a, b interface{}) interface{} { return a })
+	e.Define("hv", func(a ...interface{}) interface{} { return int64(len(a)) })
 	return e
 }
 
@@ -267,6 +328,11 @@ func runOnce(p program, ch sched.Chooser, record bool, pollCap int64) (r result,
 		}}
 	_ = ctx
 	_ = pollCap
+	if p.Pre != "" {
+		if _, err := vm.Execute(e, nil, p.Pre); err != nil {
+			return r, fmt.Errorf("prelude: %v", err)
+		}
+	}
 	r.out = vmrun.Run(stmt, e, ch, cfg)
 	return r, nil
 }
